@@ -11,6 +11,7 @@ import (
 	"fmt"
 	"os"
 	"path/filepath"
+	"runtime"
 	"runtime/debug"
 	"sort"
 	"strconv"
@@ -77,6 +78,11 @@ type Harness struct {
 	// RequiredCounters must be non-zero over a whole worker run, else the
 	// worker reports an inconclusive result (a seam is no longer reached).
 	RequiredCounters []string
+	// ManualGC turns the automatic collector off and collects every few hundred plans, but
+	// never again once a violation was seen: code under test whose finalizers panic on leaked
+	// objects (lockedfile.File) would otherwise kill the worker before it can shrink and
+	// report the leak it has just detected.
+	ManualGC bool
 }
 
 // Result is the worker's result file.
@@ -281,7 +287,14 @@ func Main(t *testing.T, h *Harness) {
 	var inconclusive string
 	searching := true
 
+	if h.ManualGC {
+		debug.SetGCPercent(-1)
+	}
+	violationSeen := false
 	prop := func(rt *rapid.T) {
+		if h.ManualGC && !violationSeen && res.Evaluations%300 == 299 {
+			runtime.GC()
+		}
 		plan := h.Gen(rt, tier)
 		out := exec(plan, false)
 		if searching {
@@ -315,6 +328,7 @@ func Main(t *testing.T, h *Harness) {
 			return // not a failure for rapid; the worker stops after this batch
 		}
 		if out.Violation != nil {
+			violationSeen = true
 			if key := matchKnown(plan, out); key != "" {
 				if searching {
 					res.KnownHits[key]++
